@@ -98,6 +98,28 @@ func (m *c15Model) canon() string {
 	return sb.String()
 }
 
+// the cache is keyed the way the engine keys it: by the page's file offset (uint64)
+func c15Key(k int) uint64 { return uint64(k+1) * pageSize }
+
+func c15KeyBack(k any) int { return int(k.(uint64)/pageSize) - 1 }
+
+// c15Node: a fresh page for key k. Odd keys are leaves linked to both neighbouring keys, even keys interior
+// pages whose cells and right-most pointer name the neighbouring keys.
+func c15Node(k int, dirty bool) *btreeNode {
+	n := &btreeNode{fileOffset: c15Key(k), dirty: dirty, isLeaf: k%2 == 1}
+	if n.isLeaf {
+		n.hasLSib, n.lSibFileOffset = true, c15Key(k-1)
+		n.hasRSib, n.rSibFileOffset = true, c15Key(k+1)
+	} else {
+		if k > 0 {
+			n.appendInternalCell(uint32(k), c15Key(k-1))
+		}
+		n.setRightMostKey(c15Key(k + 1))
+	}
+	n.dirty = dirty
+	return n
+}
+
 // c15Apply applies op to both the real cache and the model and checks every
 // clause; it returns a description of the first disagreement.
 func c15Apply(lru *LRUCache, m *c15Model, op c15Op) (applicable bool, problem string) {
@@ -110,7 +132,7 @@ func c15Apply(lru *LRUCache, m *c15Model, op c15Op) (applicable bool, problem st
 	var before []snap // front..back
 	for e := lru.list.Front(); e != nil; e = e.Next() {
 		ce := e.Value.(*cacheEntry)
-		before = append(before, snap{ce.key.(int), ce.val.isDirty(), ce.val})
+		before = append(before, snap{c15KeyBack(ce.key), ce.val.isDirty(), ce.val})
 	}
 	resident := func(k int) *btreeNode {
 		if i := m.find(k); i >= 0 {
@@ -128,9 +150,11 @@ func c15Apply(lru *LRUCache, m *c15Model, op c15Op) (applicable bool, problem st
 			}
 		} else {
 			// (leaves and interior pages alternate by key: the kind of a page is none of the cache's business)
-			n = &btreeNode{fileOffset: uint64(op.key), dirty: op.kind == 1, isLeaf: op.key%2 == 1}
+			// (and pages point at each other - leaves at their neighbours, interior pages at their children -
+			// by the very file offsets they are cached under: none of the cache's business either)
+			n = c15Node(op.key, op.kind == 1)
 		}
-		got := lru.set(op.key, n)
+		got := lru.set(c15Key(op.key), n)
 		want, evicted := m.set(op.key, n)
 		if got != want {
 			return true, fmt.Sprintf("set returned %v, reference says %v", got, want)
@@ -154,14 +178,14 @@ func c15Apply(lru *LRUCache, m *c15Model, op c15Op) (applicable bool, problem st
 			return true, "insertion accepted into a cache full of dirty pages (something unsaved was dropped or capacity exceeded)"
 		}
 		if got {
-			if v, ok := lru.cache[op.key]; !ok || v.Value.(*cacheEntry).val != n {
+			if v, ok := lru.cache[c15Key(op.key)]; !ok || v.Value.(*cacheEntry).val != n {
 				return true, "lookup after set does not return the page just stored"
 			}
 		}
 		// every dirty page resident before must still be resident
 		for _, s := range before {
 			if s.dirty && s.key != op.key {
-				if v, ok := lru.cache[s.key]; !ok || v.Value.(*cacheEntry).val != s.node {
+				if v, ok := lru.cache[c15Key(s.key)]; !ok || v.Value.(*cacheEntry).val != s.node {
 					return true, fmt.Sprintf("dirty page %d left the cache", s.key)
 				}
 			}
@@ -177,7 +201,7 @@ func c15Apply(lru *LRUCache, m *c15Model, op c15Op) (applicable bool, problem st
 			}
 			gone := []int{}
 			for _, s := range before {
-				if _, ok := lru.cache[s.key]; !ok {
+				if _, ok := lru.cache[c15Key(s.key)]; !ok {
 					gone = append(gone, s.key)
 				}
 			}
@@ -186,7 +210,7 @@ func c15Apply(lru *LRUCache, m *c15Model, op c15Op) (applicable bool, problem st
 			}
 		}
 	case 3:
-		gn, gok := lru.get(op.key)
+		gn, gok := lru.get(c15Key(op.key))
 		wn, wok := m.get(op.key)
 		if gok != wok || gn != wn {
 			return true, fmt.Sprintf("get(%d) = (%p,%v), reference (%p,%v)", op.key, gn, gok, wn, wok)
@@ -224,7 +248,7 @@ func c15Apply(lru *LRUCache, m *c15Model, op c15Op) (applicable bool, problem st
 	i := 0
 	for e := lru.list.Front(); e != nil; e = e.Next() {
 		ce := e.Value.(*cacheEntry)
-		if ce.key.(int) != m.ents[i].key || ce.val != m.ents[i].node {
+		if c15KeyBack(ce.key) != m.ents[i].key || ce.val != m.ents[i].node {
 			return true, fmt.Sprintf("recency order differs at position %d: have key %v, reference key %d", i, ce.key, m.ents[i].key)
 		}
 		if lru.cache[ce.key] != e {
